@@ -11,6 +11,7 @@ import (
 	"go/ast"
 	"go/token"
 	"go/types"
+	"os"
 	"sort"
 	"strings"
 	"sync"
@@ -557,6 +558,9 @@ func (e *effEngine) recordPath(fi *core.FuncInfo, p *core.Path, how string, pos 
 		}
 	}
 	root, param, obj, fresh := e.classify(fi, p)
+	if os.Getenv("VERIF_DEBUG_EFF") != "" && how == "append-shared" {
+		fmt.Fprintf(os.Stderr, "DEBUG append-shared in %s: lhs=%s root=%s param=%d fresh=%v path=%v rel=%d via=%v\n", fi.QName(), lhs, root, param, fresh, p, len(rel), via)
+	}
 	if fresh {
 		return
 	}
@@ -581,9 +585,30 @@ func (e *effEngine) recordPath(fi *core.FuncInfo, p *core.Path, how string, pos 
 		// the whole store stays inside a value copy
 		return
 	}
+	if root == "call" && how == "append-shared" && (p == nil || p.RootCall == nil || core.IsSlice(fi.Pkg.TypesInfo.TypeOf(p.RootCall)) && len(p.Steps) == 0) {
+		// the result of a call that is appended to: whether it shares storage with an argument is unknown, and the
+		// usual attribution to every pointer-like argument would blame the elements, not the slice
+		return
+	}
 	if root == "call" && p != nil && p.RootCall != nil {
-		// derived from a call: attribute to each pointer-like argument (location unknown)
-		for _, a := range p.RootCall.Args {
+		// derived from a call: attribute to each pointer-like argument (location unknown), the receiver of a method
+		// call included (a getter hands out the analyzer's or the document's own storage) unless the callee is
+		// known to return fresh storage
+		cargs := append([]ast.Expr{}, p.RootCall.Args...)
+		if sel, ok := core.Unparen(p.RootCall.Fun).(*ast.SelectorExpr); ok {
+			if _, isSel := fi.Pkg.TypesInfo.Selections[sel]; isSel {
+				fresh := false
+				if callee := e.c.P.StaticCallee(fi, p.RootCall); callee != nil {
+					if cf := e.c.P.Funcs[callee]; cf != nil && e.sum[cf] != nil && e.sum[cf].returnsFresh {
+						fresh = true
+					}
+				}
+				if !fresh {
+					cargs = append(cargs, sel.X)
+				}
+			}
+		}
+		for _, a := range cargs {
 			if !pointerLike(fi.Pkg.TypesInfo.TypeOf(a)) && !hasPointers(fi.Pkg.TypesInfo.TypeOf(a)) {
 				continue
 			}
@@ -725,6 +750,10 @@ func (e *effEngine) call(fi *core.FuncInfo, call *ast.CallExpr) {
 				if len(call.Args) >= 2 {
 					if base := e.reslicedBase(fi, call.Args[0], 0); base != nil {
 						e.recordWrite(fi, base, "append-in-place", call.Pos(), nil, []core.Step{{Name: "[*]"}}, nil, fi, exprStr(call.Args[0])+" (resliced, appended in place)", false)
+					} else if _, isLit := core.Unparen(call.Args[0]).(*ast.CompositeLit); !isLit && !core.IsNilExpr(info, call.Args[0]) {
+						// append(s, …) on a slice that is not fresh storage writes into the spare capacity of s's
+						// backing array (a JSON-decoded list of 3 has capacity 4): two readers doing so race
+						e.recordWrite(fi, call.Args[0], "append-shared", call.Pos(), nil, []core.Step{{Name: "[*]"}}, nil, fi, exprStr(call.Args[0])+" (appended to: spare capacity of its backing array)", false)
 					}
 				}
 			case "delete":
